@@ -148,11 +148,11 @@ impl ChannelManager {
     channel_list.sort();
 
     // Apply pagination if specified
-    let page = page.unwrap_or(1);
+    let page = page.unwrap_or(1).max(1);
     let page_size = count.unwrap_or(20).min(MAX_CHANNELS_PAGE_SIZE);
 
-    let start = ((page - 1) * page_size) as usize;
-    let end = (page * page_size) as usize;
+    let start = (page as usize - 1).saturating_mul(page_size as usize);
+    let end = start.saturating_add(page_size as usize);
 
     let paginated_channels =
       if start < channel_list.len() { channel_list[start..end.min(channel_list.len())].to_vec() } else { Vec::new() };
@@ -231,11 +231,11 @@ impl ChannelManager {
     member_list.sort();
 
     // Apply pagination if specified
-    let page = page.unwrap_or(1);
+    let page = page.unwrap_or(1).max(1);
     let page_size = count.unwrap_or(20).min(MAX_MEMBERS_PAGE_SIZE);
 
-    let start = ((page - 1) * page_size) as usize;
-    let end = (page * page_size) as usize;
+    let start = (page as usize - 1).saturating_mul(page_size as usize);
+    let end = start.saturating_add(page_size as usize);
 
     let paginated_members =
       if start < member_list.len() { member_list[start..end.min(member_list.len())].to_vec() } else { Vec::new() };
@@ -602,8 +602,9 @@ impl ChannelManager {
     // Apply pagination if requested
     let (nids, response_page, response_page_size, response_total_count) =
       if let (Some(page), Some(page_size)) = (page, page_size) {
-        let start = ((page - 1) * page_size) as usize;
-        let end = (start + page_size as usize).min(all_nids.len());
+        let page = page.max(1);
+        let start = (page as usize - 1).saturating_mul(page_size as usize);
+        let end = start.saturating_add(page_size as usize).min(all_nids.len());
         let paginated_nids = if start < all_nids.len() { all_nids[start..end].to_vec() } else { Vec::new() };
         (paginated_nids, Some(page), Some(page_size), Some(total_count))
       } else {
